@@ -172,6 +172,19 @@ func rewrite(rel string, src []byte, goCalled map[string]bool) ([]byte, int) {
 			Args: []ast.Expr{&ast.BasicLit{Kind: token.STRING, Value: strconv.Quote(fmt.Sprintf("auto:%s:%s:%d", kind, rel, pos.Line))}},
 		}}
 	}
+	isRecv := func(comm ast.Stmt) bool {
+		var x ast.Expr
+		switch c := comm.(type) {
+		case *ast.ExprStmt:
+			x = c.X
+		case *ast.AssignStmt:
+			if len(c.Rhs) == 1 {
+				x = c.Rhs[0]
+			}
+		}
+		u, ok := x.(*ast.UnaryExpr)
+		return ok && u.Op == token.ARROW
+	}
 	var fix func(list []ast.Stmt) []ast.Stmt
 	fix = func(list []ast.Stmt) []ast.Stmt {
 		var out []ast.Stmt
@@ -214,6 +227,12 @@ func rewrite(rel string, src []byte, goCalled map[string]bool) ([]byte, int) {
 			b.Body = fix(b.Body)
 		case *ast.CommClause:
 			b.Body = fix(b.Body)
+			// a select case that has just received something: the place where a goroutine that was woken with a value in
+			// its hands can be overtaken before it has looked at it (the analogue of a yield after a Cond wake-up)
+			if isRecv(b.Comm) && (len(b.Body) == 0 || !isHookCall(b.Body[0])) {
+				b.Body = append([]ast.Stmt{yield("recv", b.Pos())}, b.Body...)
+				n++
+			}
 		}
 		return true
 	})
